@@ -13,6 +13,7 @@ import (
 	"github.com/syndtr/goleveldb/leveldb/opt"
 	"github.com/syndtr/goleveldb/leveldb/storage"
 	"github.com/syndtr/goleveldb/leveldb/util"
+	"verif/harness/decode"
 	"verif/harness/simdisk"
 	"verif/simrt"
 )
@@ -697,4 +698,144 @@ func (r *runner) lifeROFS() {
 	if !r.ensureOpen() && len(r.out.Viol) == 0 {
 		r.viol("lock", "lock:not-released", "Open after the file-storage scenario failed")
 	}
+}
+
+// liveTablesInDir decodes the manifest CURRENT points to and returns the
+// numbers of the live tables.
+func liveTablesInDir(dir string) (map[int64]bool, error) {
+	cur, err := os.ReadFile(filepath.Join(dir, "CURRENT"))
+	if err != nil {
+		return nil, err
+	}
+	data, err := os.ReadFile(filepath.Join(dir, strings.TrimSpace(string(cur))))
+	if err != nil {
+		return nil, err
+	}
+	recs, _, _ := decode.Journal(data)
+	live := map[int64]bool{}
+	for _, rc := range recs {
+		e, err := decode.ParseEdit(rc.Data)
+		if err != nil {
+			return nil, err
+		}
+		for _, t := range e.Deleted {
+			delete(live, t.Num)
+		}
+		for _, t := range e.Added {
+			live[t.Num] = true
+		}
+	}
+	return live, nil
+}
+
+// fsRW: files are deleted when unneeded, also by the real file storage and
+// also when they carry the legacy ".sst" name that file storage still accepts.
+// The settled image is laid out in a scratch directory (a seeded subset of the
+// tables under the old name), opened read-write through storage.OpenFile,
+// every key is written again with its current value, the whole range is
+// compacted; after background work has settled the directory holds no table
+// that the manifest does not list, and the DB reopens with the same contents.
+// (Like ro-fs this runs file_storage.go for real; it is not simulated.)
+func (r *runner) fsRW(sel uint64) {
+	r.closeDB()
+	r.disk.NextEpoch(0, 0, false)
+	simrt.SetEpoch(r.disk.Epoch + 1000)
+	defer func() { r.pos = 1 << 30 }() // the run ends here
+	dir, err := os.MkdirTemp("", "verif-rwfs-")
+	if err != nil {
+		return
+	}
+	defer os.RemoveAll(dir)
+	x := xr{sel}
+	// only live tables get the legacy name: they are what an older version
+	// wrote and committed. (A table file that no manifest lists was written
+	// by this code base, which never uses the old name; an image with a stale
+	// ".sst" orphan whose number is handed out again is not one goleveldb
+	// can leave behind.)
+	liveNow := map[int64]bool{}
+	if st := r.mon.current(); st != nil {
+		for _, ts := range st.levels {
+			for n := range ts {
+				liveNow[n] = true
+			}
+		}
+	}
+	for _, fd := range r.disk.ListFiles(storage.TypeAll) {
+		data, _ := r.disk.Data(fd)
+		name := fsName(fd)
+		if fd.Type == storage.TypeTable && liveNow[fd.Num] && x.next()%2 == 0 {
+			name = fmt.Sprintf("%06d.sst", fd.Num)
+		}
+		if err := os.WriteFile(filepath.Join(dir, name), data, 0o644); err != nil {
+			panic(err)
+		}
+	}
+	os.WriteFile(filepath.Join(dir, "CURRENT"), []byte(fsName(r.disk.Meta())+"\n"), 0o644)
+	for round := 0; round < 2; round++ {
+		stor, err := storage.OpenFile(dir, false)
+		if err != nil {
+			r.viol("files-residue", "files-residue:fs:open-failed", fmt.Sprintf("OpenFile (round %d) failed: %v", round, err))
+			return
+		}
+		db, err := leveldb.Open(stor, r.knobs.Options())
+		if err != nil {
+			stor.Close()
+			detail := ""
+			if live, e := liveTablesInDir(dir); e == nil {
+				ents, _ := os.ReadDir(dir)
+				var names []string
+				for _, e := range ents {
+					names = append(names, e.Name())
+				}
+				var nums []int
+				for n := range live {
+					nums = append(nums, int(n))
+				}
+				sort.Ints(nums)
+				detail = fmt.Sprintf("; directory %v, tables listed by the manifest %v", names, nums)
+			}
+			r.viol("files-residue", "files-residue:fs:open-failed", fmt.Sprintf("Open on file storage (round %d) failed: %v%s", round, err, detail))
+			return
+		}
+		r.db = db
+		r.scanAll("scan")
+		if round == 0 && len(r.out.Viol) == 0 {
+			v := View{M: r.model, N: r.model.Len()}
+			for _, k := range r.model.keys {
+				ch := v.chain(k)
+				if len(ch) == 1 && !ch[0].del {
+					db.Put(k, ch[0].val.Bytes(), nil) // the same value again: the old entry becomes garbage
+				}
+			}
+			db.CompactRange(util.Range{})
+			simrt.Quiesce()
+			simrt.IdleFor(301e9)
+			simrt.Quiesce()
+			simrt.IdleFor(301e9)
+			simrt.Quiesce()
+			r.scanAll("scan")
+		}
+		r.db = nil
+		db.Close()
+		stor.Close()
+		simrt.Progress()
+		if len(r.out.Viol) > 0 {
+			return
+		}
+		live, err := liveTablesInDir(dir)
+		if err != nil {
+			r.viol("files-residue", "files-residue:fs:manifest", fmt.Sprintf("cannot decode the manifest in the directory: %v", err))
+			return
+		}
+		ents, _ := os.ReadDir(dir)
+		for _, e := range ents {
+			var num int64
+			var ext string
+			if n, _ := fmt.Sscanf(e.Name(), "%06d.%s", &num, &ext); n == 2 && (ext == "ldb" || ext == "sst") && !live[num] {
+				r.viol("files-residue", "files-residue:fs:extra:table", fmt.Sprintf("after compaction and settling (round %d) the directory still holds %s, which the manifest does not list", round, e.Name()))
+				return
+			}
+		}
+	}
+	r.probe("fs-rw")
 }
